@@ -10,7 +10,11 @@
 extern int64_t G_now_entry, G_now_before, G_front_before, W_now_before, W_front_before;   /* ghost snapshots used by run()'s injected assertions */
 extern size_t g_last_poll;        /* handlers run by the most recent poll() */
 extern size_t g_poll_calls;
-static inline void io_restart(struct simulation *self) { (void)self; }
+/* m_service.restart() / m_service.stop() on the underlying io_context: counted (run() restarts it once per call; nothing else
+ * may stop or restart it: posted handlers must still run, at the virtual time they were posted) */
+extern size_t g_io_restart_calls, g_io_stop_calls;
+static inline void io_restart(struct simulation *self) { (void)self; g_io_restart_calls = g_io_restart_calls + 1; }
+static inline void io_stop(struct simulation *self) { (void)self; g_io_stop_calls = g_io_stop_calls + 1; }
 size_t io_poll(struct simulation *self)
 __CPROVER_requires(TQ_SHAPE(TQ(self)))
 __CPROVER_assigns(TQ(self).len, TQ(self).front_t, TQ(self).front_exp, self->m_stopped, g_last_poll, g_poll_calls)
@@ -33,7 +37,7 @@ static inline void run_fire(struct simulation *self, struct hrtimer *x, int ec)
   g_fired_last_exp = TQ(self).last_erased_exp; g_fired_last_ec = ec;
   g_fired_count++;
 }
-#define RUN_GHOST g_fired_count, g_fired_last_exp, g_fired_last_ec, g_fired_at_Gi_exp, g_last_poll, g_poll_calls
+#define RUN_GHOST g_io_restart_calls, g_io_stop_calls, g_fired_count, g_fired_last_exp, g_fired_last_ec, g_fired_at_Gi_exp, g_last_poll, g_poll_calls
 
 /* constructor: `new asio::io_context(*this)` and configuration::build(*this) are foreign code.
  * build() is where users start creating nodes: the clock must already be 0 when it runs. */
